@@ -98,6 +98,35 @@ def build_programs(lang, col, n_seed, rnd_seed):
         except Exception as e:
             col.feature('pipeline_exception(C18 territory):' + type(e).__name__)
     hyp.explore(st.tuples(st.integers(0, 2 ** 31 - 1), pg.config_strategy()), one, n_seed, rnd_seed)
+
+    # hand-shaped programs (vlib/handprog.py): shapes the generator produces rarely (functions declared inside functions
+    # with trailing varargs, constructor calls in receiver position, generic factories); they are built from the same IR
+    # constructors and each is well-typed by the reference checker, so the Java translation of the program and of its
+    # erased variant must compile as well
+    def hand(data):
+        from vlib import rc
+        case = pg.hand_case(lang, draw=data.draw)
+        if any(l.startswith('nested-reassigned') for l in case.labels):
+            # a nested function assigning a local of its enclosing function: not expressible with Java lambdas (captured
+            # locals must be effectively final) - outside the programs a Java run can contain
+            col.feature('handmade_not_expressible_in_java(discarded)')
+            return
+        try:
+            if any(v['rule'][0] in 'RS' for v in rc.check_program(case.program)[0]):
+                col.feature('handmade_rejected_by_RC(discarded)')
+                return
+            feats = pg.features(case.program)
+            add(case, 'G', pg.translate(case.program, lang, package='src.@PKG@'), True, feats)
+            out[-1]['handmade'] = True
+            import random
+            boot._state['utils'].random.r = random.Random(len(case.tape))
+            if pg.erase(case.program, lang).is_transformed:
+                add(case, 'E', pg.translate(case.program, lang, package='src.@PKG@'), True, feats)
+                out[-1]['handmade'] = True
+            col.feature('handmade_programs')
+        except Exception as e:
+            col.feature('pipeline_exception(C18 territory):' + type(e).__name__)
+    hyp.explore(st.data(), hand, max(6, n_seed // 2), rnd_seed + 1)
     return out
 
 
@@ -163,7 +192,7 @@ def judge_programs(progs, col, n_batches, seed):
                 continue
             if p['expect_ok'] and own:
                 mk = message_key(own[0][1])
-                col.violation('C02/javac-rejects/%s/%s' % (p['stage'], mk),
+                col.violation('C02/javac-rejects/%s/%s%s' % (p['stage'], mk, '/handmade' if p.get('handmade') else ''),
                               {'stage': p['stage'], 'line': own[0][0], 'message': own[0][1], 'errors': len(own),
                                'source_line': _line(p['text'], own[0][0])},
                               p['key'], size=len(p['text']))
